@@ -262,6 +262,10 @@ def summarize(prop, h, tier, seed, cases, results, lemma_obs, wall):
     for r in results:
         if r['outcome'] == 'budget': print(f'NOTE: the {tier} tier stopped at its time budget ({r["note"]}); the verdict covers the paths explored so far')
     for l in known_lines: print(l)
+    if tier != 'quick':
+        kinds = {}
+        for r in outside: kinds.setdefault(str(r.get('note'))[:90], []).append(_case_repr(cases, r['case']))
+        for k_, v_ in list(kinds.items())[:6]: print(f'NOTE: {len(v_)} path(s) not decided: {k_} e.g. {v_[0]}')
     code = 0
     if crashes or xdiv or xerr or canary_bad:
         code = 3
@@ -298,7 +302,8 @@ def summarize(prop, h, tier, seed, cases, results, lemma_obs, wall):
         lk = json.load(open(lock)).get(prop)
         if lk:
             missing = sorted(set(lk.get('names', [])) - set(names))
-            if missing or len(mine) < lk.get('min_obligations', 0):
+            # the minimum count is the quick tier's (its case list is fixed); a time-boxed thorough run is only required to show every obligation name
+            if missing or (tier == 'quick' and len(mine) < lk.get('min_obligations', 0)):
                 code = 2; print(f'UNDECIDED: obligation set shrank (missing {missing[:5]}, {len(mine)} < {lk.get("min_obligations")})')
     return code, ev
 
